@@ -644,6 +644,17 @@ func main() {
 			{"runs-on-array", runner("macos"), "on: push\njobs:\n  a:\n    strategy:\n      matrix:\n        runner:\n          - [self-hosted, linux]\n          - " + anyE + "\n    runs-on: ${{ matrix.runner }}\n    steps:\n      - run: echo\n"},
 			{"runs-on-elements-expr", "on: push\njobs:\n  a:\n    runs-on: ${{ fromJSON('[\"a\",\"b\"]') }}\n    steps:\n      - run: echo\n", "on: push\njobs:\n  a:\n    runs-on: ${{ fromJSON(vars.LABELS) }}\n    steps:\n      - run: echo\n"},
 		}...)
+		// include elements given by expressions: a map-typed element first, then an object literal
+		// (precise) against an element of unknown type (loose); the members of a matrix value are used
+		incl := func(first, second string) string {
+			return "on: push\njobs:\n" + setupOpen + "  build:\n    needs: setup\n    strategy:\n      matrix:\n        include:\n          - " + first + "\n          - " + second + "\n    runs-on: ubuntu-latest\n    steps:\n      - run: echo ${{ matrix.cfg.name }} ${{ matrix.os }}\n"
+		}
+		sites = append(sites, []struct{ name, precise, loose string }{
+			{"include-after-vars-element", incl("${{ vars }}", "cfg: {name: x}"), incl("${{ vars }}", anyE)},
+			{"include-after-open-outputs-element", incl("${{ needs.setup.outputs }}", "cfg: {name: x}"), incl("${{ needs.setup.outputs }}", anyE)},
+			{"include-before-vars-element", incl("cfg: {name: x}", "${{ vars }}"), incl(anyE, "${{ vars }}")},
+			{"include-two-unknown-elements", incl("cfg: {name: x}", "os: y"), incl(anyE, anyE)},
+		}...)
 		// the `jobs` context of a reusable workflow: a job with declared outputs against a job that
 		// is itself a call (outputs unknown)
 		callOut := func(build string) string {
